@@ -131,7 +131,6 @@ type Run struct {
 	// snap / conc profiles
 	openViews            int
 	committedNonce       string
-	history              []viewRec
 	meta                 metaModel
 	snaps                []*snapRec
 	restoring            *pendingRestore
@@ -140,6 +139,7 @@ type Run struct {
 	restoreListenerCalls int
 	tlCounter            int
 	helperExp            map[string]string
+	hist                 []histOp
 }
 
 var runCounter atomic.Int64
@@ -690,6 +690,7 @@ func (r *Run) execWriteTx(t *Task, idx int, tx *TxPlan) {
 	body := func(ctx boltz.MutateContext) error { return r.body(tr, ctx) }
 	var err error
 	panicked := false
+	var callSeq uint64
 	func() {
 		defer func() {
 			if p := recover(); p != nil {
@@ -701,6 +702,7 @@ func (r *Run) execWriteTx(t *Task, idx int, tx *TxPlan) {
 				panic(p)
 			}
 		}()
+		callSeq = r.s.NextSeq()
 		if tx.Mode == "batch" {
 			r.s.BatchWait(1)
 			waiting := true
@@ -720,6 +722,18 @@ func (r *Run) execWriteTx(t *Task, idx int, tx *TxPlan) {
 			err = r.db.Update(ctx, body)
 		}
 	}()
+	retSeq := r.s.NextSeq()
+	if r.plan.Nonce {
+		r.mu.Lock()
+		h := histOp{Task: t.Name, Kind: "w", Call: callSeq, Ret: retSeq}
+		if n := len(tr.attempts); n > 0 {
+			last := tr.attempts[n-1]
+			h.Nonce = fmt.Sprintf("%s@%d", tr.id, n)
+			h.Effect = last.btx.committed && last.done
+		}
+		r.hist = append(r.hist, h)
+		r.mu.Unlock()
+	}
 	t.Yield("tx.end", NeedNone)
 	r.afterTx(tr, err, panicked)
 }
